@@ -607,8 +607,34 @@ def target_branches(P, T):
             for x in allv - set(tab):
                 tab[x] = n["els"]
         if tab is not None:
+            # `let names = match import.targets { Wildcard => { ..; return Ok(()) } Specific(ref names) => names };` — when every other
+            # kind leaves, what follows the statement is the code of the remaining kind
+            staying = [x for x, b in tab.items() if b is not None and not diverges(b)]
+            if len(staying) == 1 and len(tab) > 1 and all(b is not None for b in tab.values()):
+                rest, scope = continuation(T, n)
+                if rest:
+                    tab[staying[0]] = {"k": "Block", "stmts": [tab[staying[0]]] + rest, "synthetic": scope}
             out.append((n, {role[x]: b for x, b in tab.items()}))
     return out, set(role.values())
+
+
+def continuation(T, node):
+    """(the statements and tail that follow the statement `node` belongs to, its enclosing block)"""
+    acc = T.nodes()
+    i = index_of(T, node)
+    if i < 0:
+        return [], None
+    child, p = i, acc[i][1]
+    while p >= 0 and acc[p][0].get("k") in ("Stmt", "DropTemps", "Paren", "Use", "Let"):
+        child, p = p, acc[p][1]
+    if p < 0 or acc[p][0].get("k") != "Block":
+        return [], None
+    b = acc[p][0]
+    stmts = b.get("stmts", [])
+    pos = [k for k, st in enumerate(stmts) if st is acc[child][0]]
+    if not pos:
+        return [], None
+    return stmts[pos[0] + 1:] + ([b["tail"]] if "tail" in b else []), b
 
 
 def slice_nodes(T, pv, idx, stop=None):
@@ -735,6 +761,9 @@ def r13c(P, R):
             if body is None:
                 continue
             inside = [j for j in appends_all if _within(body, acc[j][0])]
+            if not inside:
+                # the branches yield the definitions and one append consumes the value (`definitions.extend(select(import, doc)?)`)
+                inside = [j for j in appends_all if _within(acc[j][0], node)]
             # appended
             if inside:
                 R.holds("R13-c", "appends:%s" % v, "imported fragments are appended to the definitions", loc=loc)
@@ -765,7 +794,10 @@ def r13c(P, R):
             if v == "Specific":
                 body_atoms = pv.atoms(body)
                 ok = has_field(body_atoms, "nitrogql_ast::operation::FragmentDefinition", "name") and has_field(body_atoms, "nitrogql_ast::base::Ident", "name")
-                R.check("R13-c", "specific-by-name", ok, "specific imports are selected by fragment name", "specific imports are not selected by name", loc=loc)
+                if ok or inside:
+                    R.check("R13-c", "specific-by-name", ok, "specific imports are selected by fragment name", "specific imports are not selected by name", loc=loc)
+                else:
+                    R.undecided("R13-c", "specific-by-name", "the branch for specific imports appends nothing itself; how names are selected is not decided", loc=loc)
                 errs = [j for j in nf_all if _within(body, acc[j][0])]
                 if errs:
                     R.holds("R13-c", "missing-name-error", "a missing fragment name is reported", loc=loc)
@@ -777,9 +809,12 @@ def r13c(P, R):
                     R.violated("R13-c", "missing-name-error", "no FragmentNotFound diagnostic is constructed anywhere in the traversal", loc=loc)
                 # FragmentNotFound is decided against the imported file's own definitions, not against what has been collected so far
                 for j in errs:
-                    a = guard_atoms(pv, guards_of(T, j, stop=body))
+                    a = guard_atoms(pv, guards_of(T, j, stop=body.get("synthetic") or body))
                     from_imported = has_call(a, "OperationResolver::resolve") and has_field(a, "nitrogql_ast::operation::OperationDocument", "definitions")
-                    from_acc = has_defs(A, a)
+                    # ... *read* from the accumulated list (a write to it in a sibling branch is not a dependency of the verdict)
+                    from_acc = has_defs(A, a) and any(
+                        x.get("k") == "MethodCall" and x["method"] not in APPENDS and EXDEF in norm(x.get("recv_ty") or "") and has_defs(A, pv.atoms(x["recv"]))
+                        for x in slice_nodes(T, pv, j, stop=body.get("synthetic") or body))
                     if from_imported and not from_acc:
                         R.holds("R13-c", "missing-name-source", "a requested name is missing iff the imported file does not define it", loc=loc)
                     elif from_imported:
@@ -849,6 +884,8 @@ def r13d(P, R):
     # ... or the traversal itself marks the file it is called for (its own path, not the resolved path of an import)
     own = [c for c in A.T.walk() if is_vis(A, c, MARKS) and c["args"] and any(("param", p) in A.pv.atoms(c["args"][0]) for p in A.importer)
            and not has_call(A.pv.atoms(c["args"][0]), "resolve_relative_path")]
+    # ... wherever that collection is created (a field initialiser of a context struct, a constructor function)
+    handed += [x for x in E.walk() if x.get("k") in ("Call", "MethodCall") and peel_ty(x.get("t")).strip() in A.vts]
     if not roots:
         R.undecided("R13-d", "root-visited", "no parameter of %s carries the root file's path" % entry.path, loc=entry.loc())
     else:
